@@ -51,6 +51,9 @@ Only these lexical normalisations are applied to copied text (each counted, see 
         { let mut __vp_anyK = false; for __vp_eK in RECV.iter() { let x = *__vp_eK; if BODY { __vp_anyK = true; break; } } __vp_anyK }
         { let mut __vp_allK = true;  for x in RECV.iter() { if !(BODY) { __vp_allK = false; break; } } __vp_allK }
      (Verus has no specification for iterator adapters taking closures)
+  N13 (only with option `pin-poll-next`) `Pin::new(&mut X).poll_next(cx)` with X a field path becomes `X.poll_next_unpin(cx)`: that is the
+     definition of `futures::StreamExt::poll_next_unpin` (`Pin::new(self).poll_next(cx)`, for `Unpin` streams); Verus has no `Pin::new`.
+     The stream's `poll_next_unpin` is an assumed (external) method of the unit's prelude either way.
   N10 statements `LHS |= E;` / `LHS &= E;` (bool operands: Verus has no `|`/`&` on bool) become `if E { LHS = true; }` /
      `if !(E) { LHS = false; }`: E is evaluated exactly once in both forms and the assignment leaves LHS unchanged in the other
      case; for a non-bool LHS the result does not type-check
@@ -412,7 +415,7 @@ class Normaliser:
         self.counts = {'N1_visibility': 0, 'N2_attrs_docs_dropped': 0, 'N3_ret_named_contract_spliced': 0,
                        'N4_cfg_statistics_or_allow_dropped': 0, 'N4b_cfg_attribute_dropped_code_kept': 0,
                        'N5_ref_pattern_desugared': 0,
-                       'N6_impl_iterator_return_type': 0, 'N7_tail_loop_break_value': 0, 'N8_map_constructor_then_try': 0, 'N9_assert_eq_as_assert': 0, 'N10_bool_compound_assign': 0, 'N11_option_map_closure_inlined': 0, 'N12_iter_any_all_as_loop': 0, 'G_optional_splices_skipped': 0, 'G_ghost_splices': 0}
+                       'N6_impl_iterator_return_type': 0, 'N7_tail_loop_break_value': 0, 'N8_map_constructor_then_try': 0, 'N9_assert_eq_as_assert': 0, 'N10_bool_compound_assign': 0, 'N11_option_map_closure_inlined': 0, 'N12_iter_any_all_as_loop': 0, 'N13_pin_new_poll_next': 0, 'G_optional_splices_skipped': 0, 'G_ghost_splices': 0}
 
     def vis(self, s):
         def rep(m):
@@ -931,6 +934,16 @@ def expand(template_path, repo):
             body = norm.body(body)
             if not external:
                 body = norm.refpat(body)
+                # N13
+                if 'pin-poll-next' in opts:
+                    n13pat = re.compile(r'\bPin::new\(\s*&mut\s+((?:[a-z_]\w*)(?:\s*\.\s*[a-z_]\w*)*)\s*\)\s*\.\s*poll_next\(')
+                    sc13 = Scan(body)
+                    def _n13(m13):
+                        if not sc13.is_code(m13.start()):
+                            return m13.group(0)
+                        norm.counts['N13_pin_new_poll_next'] += 1
+                        return f'{m13.group(1)}.poll_next_unpin('
+                    body = n13pat.sub(_n13, body)
                 # N12
                 if 'iter-any-all' in opts:
                     k12 = 0
